@@ -98,6 +98,9 @@ def _props(kind, n):
         p['charge'] = np.array([-0.5, 1.25, 0.7531, -1.5031, 2.0625, -0.3137])[:n]
         p['stress'] = (np.arange(9.0).reshape(3, 3) - 3.3)[None] * (k + 0.37)[:, None, None] * 0.01234567
         p['tag'] = (ki * 7 + 3) % 5
+        # per-atom shapes with singleton dimensions: one table column each, but not a scalar per atom
+        p['weight'] = (0.25 + 0.5 * k).reshape(n, 1)
+        p['w11'] = (1.75 - 0.125 * k).reshape(n, 1, 1)
     if kind == 'full':
         p['m_id'] = ki // 2 + 1
         p['mu'] = np.outer(k - 1.3, [0.11, -0.23, 0.37])
@@ -460,7 +463,8 @@ def data_io(case):
 # ---------------------------------------------------------------------------------------------
 # LAMMPS dump files
 
-DUMP_VARIANTS = ['all', 'pos', 'spos', 'upos', 'supos', 'ownid']
+# 'a+b': several position column sets requested together, in that order
+DUMP_VARIANTS = ['all', 'pos', 'spos', 'upos', 'supos', 'ownid', 'pos+upos', 'upos+pos', 'supos+pos+spos+upos']
 OWN_IDS = [7, 3, 12, 5, 40, 1]
 POSCOLS = {'pos': 'x y z', 'spos': 'xs ys zs', 'upos': 'xu yu zu', 'supos': 'xsu ysu zsu'}
 
@@ -569,8 +573,9 @@ def dump(case):
     units, fmt, var = UNITS[case['units']], FORMATS[case['fmt']], DUMP_VARIANTS[case['var']]
     s, rec = make_system(sd, pbc, own_id=OWN_IDS if var == 'ownid' else None)
     kw = {}
-    if var in POSCOLS:
-        names = ['atom_id', 'atype', var]
+    posvars = var.split('+') if all(v in POSCOLS for v in var.split('+')) else []
+    if posvars:
+        names = ['atom_id', 'atype'] + posvars
         for extra in ('velocity', 'charge'):
             if extra in rec['props']:
                 names.append(extra)
@@ -581,9 +586,9 @@ def dump(case):
     fails = fails or []
     if d is not None:
         cols = d['columns']
-        if var in POSCOLS:
-            want = ['id', 'type'] + POSCOLS[var].split()
-            if cols[:5] != want:
+        if posvars:
+            want = ['id', 'type'] + [c for v in posvars for c in POSCOLS[v].split()]
+            if cols[:len(want)] != want:
                 fails.append(Fail(key='dump-columns', msg='requested %s, header lists %s' % (want, cols)))
         else:
             nexp = 5 + sum(int(np.prod(np.shape(a)[1:])) for a in rec['props'].values())
